@@ -23,7 +23,7 @@ EXPLANATION = (
     "C14.6 ReadDir::next advances by exactly the parsed d_reclen, refills only when offset == read_size, hands the whole buffer to getdents, that buffer holds the longest possible entry (19 + 255 + NUL, 8-aligned = 280 bytes) and iteration stops at 0; Dirent::try_from_bytes reads reclen at 16..18, d_type at 18, the name from 19, copying it byte by byte (byte i to position i) only while the byte compared is not NUL; "
     "DirEntry::file_type maps each DT_* to the like-named variant; C14.7 fs::write delivers with write_all resolved to the trait's provided loop (the one verified under C15, not an override), File's own read/write make one system call on its descriptor with the caller's whole buffer and return its count, fs::read / fs::read_to_string fill one buffer with the provided read_to_end / read_to_string and return it, File::copy uses one offset for source and destination that starts at 0 and moves only by the count copy_file_range returned, with no other system call in the loop. "
     "C14.5 also: DirEntry::is_relative_reference accepts exactly the names \".\" and \"..\" with their terminator - decided by comparing the accepted byte language path by path, whatever the spelling (slice compare, slice pattern, byte tests). "
-    "NOT decided: the post-conditions as observed on a real file system for all trees and histories, copy_file_range semantics, races with other processes.")
+    "C14.6 also: the Dirent parser refuses a record only on a condition no valid record length (24..280, 8-aligned) satisfies. NOT decided: the post-conditions as observed on a real file system for all trees and histories, copy_file_range semantics, races with other processes.")
 ASSUMPTIONS = ["reference table = std::fs::OpenOptions semantics", "linux_dirent64 layout (ino 8, off 8, reclen 2, type 1, name)", "bool::then/Option plumbing as in std"]
 
 OO = "tiny_std::fs::OpenOptions::"
